@@ -159,11 +159,59 @@ ADDED3 = {
 for k, v in ADDED3.items():
     CLAIMS[k]["text"] += v
 
+ADDED4 = {
+ "C03": " Wave 4b: R-CASEBIT (ASCII case-bit arithmetic only on letters), R-LMALT (the landmark search looks at every alternative and keeps the earliest end).",
+ "C04": " Wave 4b: R-LOOKFACT (facts borrowed from a lookahead only under a direction test of the pattern).",
+ "C05": " Wave 4b: R-OVERLAPNEG (atomicity only on evidence of disjointness), R-MINLENUSE (minimum length 0 is not 'always matches'), R-ENDCHILD (no direction-dependent choice of a child index), walk-up table of R-ATOMSUCC.",
+ "C06": " Wave 4b and after: R-TENTATIVE, R-POSIXASCII (RE2 class parsing), R-MAPSTATE (per-match callbacks keep no direction-blind cursor), R-NODEOPTS, R-TEXTSLICE (results are cut out of the input, not re-encoded), R-NILEMPTY (no match is nil).",
+ "C07": " Wave 4b: R-MAPSTATE.",
+ "C08": " Wave 4b: R-COMPACTSIB (the two compaction loops are the same algorithm), R-LAZYFULL (a lazily built slice is completely built before it can be seen), R-MAPSTATE.",
+ "C09": " Wave 4b: R-CACHEPAIR (key and payload of a cache entry are stored together), R-COMPACTSIB.",
+ "C10": " Wave 4b and after: R-STARTRANGE (caller-supplied start offsets are compared with the input length), R-RUNEIDX (runes that index tables are bounded from below).",
+ "C12": " Wave 4b: R-CACHEPAIR.",
+ "C15": " Wave 4b: R-LOOKFACT, R-ENDCHILD.",
+ "C16": " Wave 4b and after: R-CATPRED (category membership through unicode.Is on the named table), R-RANGEPEND, R-TENTATIVE, R-POSIXASCII, R-UNIONNEG (a negated group of categories is not the union of the negated members), R-BITMAP writes only under charInSlow.",
+ "C17": " Wave 4b: R-LAZYFULL, R-NAMEONCE (registration helpers change state only at a first occurrence), R-PARSERFRESH (a parser is made for one parse).",
+ "C18": " Wave 4b: R-NODEOPTS (every node gets the parser's current option word), R-PARSERFRESH, R-OPTMEMO (no memo of scanned constructs keyed by text).",
+ "C19": " Wave 4b: R-TRUNC (rune to byte conversions are bounded).",
+ "C20": " Wave 4b and after: R-CASEBIT, R-NODEOPTS, R-UNIONNEG, R-LCTABLE (every row of the lowercase table agrees with the Unicode case data of the toolchain).",
+}
+_late = {}
+for k, v in ADDED4.items():
+    if k in CLAIMS:
+        CLAIMS[k]["text"] += v
+    else:
+        _late[k] = v
+
+ADDED5 = {
+ "C01": " Wave 5: R-CRAWLPAIR (a |Back clause removes exactly the crawl entries its forward clause recorded, for every combination of the operand tests).",
+ "C02": " Wave 5: R-WHOLETEXT follows re-assigned parameters (phis).",
+ "C03": " Wave 5: R-FAILPROP (a failed sub-analysis answer is never swallowed), R-MINLENZERO (the minimum required length is not the minimum match length), R-CIEXACT (no ignore-case search falls back on an exact search for the whole needle), R-NOMATCHEXIT, R-DIRTRUNC for direction parameters.",
+ "C04": " Wave 5: R-FAILPROP, R-LOOPSIB (the loop a literal is published after is the concatenation's first child behind single-child wrappers only), R-NEGCHARS element reads are under a not-negated test.",
+ "C05": " Wave 5: R-BOUNDSET (a loop's class is related to \\b only by identity with a predefined class that consists of word characters, verified against the source), R-DISTINCT (knownDistinctSets concludes only from identity with predefined classes; each listed pair is evaluated from the initialisers over all code points), R-DIRCTX also covers one-sided cuts of a node's string.",
+ "C07": " Wave 5: R-MINLENZERO, R-NOMATCHEXIT (scan gives up only on the scan position).",
+ "C08": " Wave 5: R-VALIDFLAG (matchText.input only under hasStringInput), R-REFDEPTH (balancing references never chain: readers resolve one level), R-RANGEBYTE.",
+ "C09": " Wave 5: R-FOLDSRC (nothing reachable from Split / Replace / ReplaceFunc calls a find-all driver), R-WHOLETEXT.",
+ "C10": " Wave 5: R-CRAWLPAIR; R-GUARD understands min().",
+ "C11": " Wave 5: R-FX taint flows through local cells (defer-spilled results), R-NOALIAS (no exported *Regexp method returns storage of the compiled object).",
+ "C14": " Wave 5: R-SENTCONST (the no-timeout flag compares with a constant, never a package variable).",
+ "C15": " Wave 5: R-DIRCTX one-sided cuts, R-DIRTRUNC direction parameters.",
+ "C16": " Wave 5: R-ANYSUB ('anything' never skips a transformation that must reach the subtraction), R-ADDMONO for whole-slice assignment, R-DISTINCT.",
+ "C17": " Wave 5: R-NOALIAS.",
+ "C19": " Wave 5: R-RANGEBYTE (a byte offset in a range over a string is stepped by the rune's width), R-DIRTRUNC.",
+ "C20": " Wave 5: R-ANYSUB, R-CIEXACT, R-FOLDPAIR (a case variant is judged together with the character it belongs to).",
+}
+for k, v in ADDED5.items():
+    CLAIMS[k]["text"] += v
+
 CLAIMS["C06"] = dict(
    technique="static analysis: method-set / signature comparison on go/types against the standard library's *regexp.Regexp, SSA unit taint (rune positions vs byte offsets) over package compat, guard dominance on go/cfg for groups without captures, delegation check of the find-all limit, sibling agreement of the parser's dialect predicates",
    text="Decides structural necessary conditions of the adapter returning what Go's regexp returns: every Match*/Find* method of *regexp.Regexp exists on the adapter with an identical signature and is covered by the compile-time witnesses (R-SURFACE); no value computed from Capture.RuneIndex / RuneLength reaches an []int the adapter fills or a bound of a byte slice except through an offset table (R-BYTEUNIT), byte offsets are never compared with rune indexes (R-UNITCMP) and the lazily built offset table is created at the first rune that is not one byte wide (R-LAZYTABLE); a group without captures is reported as -1 pairs / nil / empty and never sliced (R-UNSETPAIR); n == 0 gives nil in every find-all method (R-NZERO); the first empty match is kept and the empty-match-next-to-previous rule is direction-aware (R-PREVINIT, R-DIRFOLD); the RE2 dialect switches of \\w \\d \\s, their forms inside a class and \\b / \\B are taken under the same option predicates (R-DIALECTSIB). It does NOT decide the equality itself: what is matched (leftmost-first vs backtracking semantics, class contents, anchors) is outside this technique.",
    note="Trusted: go/types for the standard library's method set; the taint is field-based (RuneIndex / RuneLength of regexp2.Capture) and treats indexing an []int as the only conversion to bytes; Compile does not force the RE2 option (the property quantifies over patterns compiled with it).",
    ref="DESIGN.md §3 C06")
+
+for k, v in _late.items():
+    CLAIMS[k]["text"] += v
 
 NOT_APPLICABLE = {
 }
